@@ -1,5 +1,6 @@
 import FrappyDrive.Util
 import FrappyModel.Spec.C07
+import FrappyModel.Wire.Dispatch
 import FrappyModel.Generated.C07
 /- line-protocol glue for C07 (not part of any theorem) -/
 namespace Frappy.Drive.C07
@@ -20,6 +21,19 @@ def tables : Tables where
   handlerErrorClass := Generated.C07.handlerErrorClass
   errorClasses := Generated.C07.errorClasses
   asyncActions := Generated.C07.asyncActions
+  stateActions := Generated.C07.stateActions
+
+def dtables : DTables where
+  readRequest := Generated.C07.readRequest
+  writeRequest := Generated.C07.writeRequest
+  commandRequest := Generated.C07.commandRequest
+  pingRequest := Generated.C07.pingRequest
+  activateRequest := Generated.C07.activateRequest
+  deactivateRequest := Generated.C07.deactivateRequest
+  loggingRequest := Generated.C07.loggingRequest
+  protocolError := Generated.C07.protocolError
+  valueName := Generated.C07.valueName
+  targetName := Generated.C07.targetName
 
 /-! hex transport of byte strings -/
 def hexVal (c : Char) : Option Nat :=
@@ -101,6 +115,41 @@ def parseOracle (j : Json) (k : String) : R (List (Bytes × Bool)) := do
     | [h, b] => return (← unhex (← h.getStr?), ← b.getBool?)
     | _ => throw "bad oracle entry")
 
+/-- outcome of a module / node function as the harness recorded it: `{"r": "ok", "d": hex}`, `{"r": "secop", "cls": hex}`, `{"r": "exc"}` -/
+def parseMod (j : Json) : R (ModResult Bytes) := do
+  match ← fldStr j "r" with
+  | "ok" => return .ok ((← optHex (← fld j "d")).getD [])
+  | "secop" => return .secop (← fldHex j "cls")
+  | _ => return .exc
+
+def modUnit : ModResult Bytes → ModResult Unit
+  | .ok _ => .ok ()
+  | .secop c => .secop c
+  | .exc => .exc
+
+/-- the node behind the dispatcher for ONE call: the functions of the request alone (`describe`, the checks of
+`activate` and `logging`) are tables computed by the harness on a fresh node; `mod` is what the module did in
+this call (used only if the model decides that the request reaches a module); JSON values are carried as text -/
+def nodeIf (descr : List (Bytes × ModResult Bytes)) (act : List (Bytes × Option Bytes))
+    (logg : List ((Option Bytes × Option Bytes) × ModResult Bytes)) (truthy : List (Bytes × Bool))
+    (mod : ModResult Bytes) : NodeIf Unit Unit Bytes where
+  describe := fun s => (descr.lookup s).getD .exc
+  activateCheck := fun s => (act.lookup s).getD none
+  logging := fun s d => modUnit ((logg.lookup (s, d)).getD .exc)
+  truthy := fun d => (truthy.lookup d).getD false
+  pong := [112]
+  read := fun nu _ _ => (mod, nu)
+  change := fun nu _ _ _ => (mod, nu)
+  exec := fun nu _ _ _ => (mod, nu)
+  events := fun _ _ _ => []
+  book := fun k _ => k
+
+def dispResultJson : DispResult Bytes → Json
+  | .ok r => Json.mkObj [("r", Json.str "ok"), ("a", jhex r.action), ("s", jopt jhex r.spec), ("d", jopt jhex r.data)]
+  | .secop c => Json.mkObj [("r", Json.str "secop"), ("cls", jhex c)]
+  | .exc => Json.mkObj [("r", Json.str "exc")]
+  | .garbage => Json.mkObj [("r", Json.str "garbage")]
+
 def handle (j : Json) : R Json := do
   let k ← fldStr j "k"
   match k with
@@ -114,6 +163,15 @@ def handle (j : Json) : R Json := do
     let chunks ← (← fldArr j "chunks").mapM (fun c => do unhex (← c.getStr?))
     let L := lib (← parseOracle j "utf8") (← parseOracle j "json")
     let script ← (← fldArr j "script").mapM parseResult
+    let gone ← fld j "fail_after"
+    if !gone.isNull then
+      -- a socket on which only the first `n` calls of sendall succeed
+      let n ← gone.getNat?
+      let r := serveF tables L (scripted script) ⟨n, true⟩ [] 0 chunks
+      let one := serveF tables L (scripted script) ⟨n, true⟩ [] 0 [chunks.flatten]
+      return Json.mkObj [("outs", jarr (r.outs.map (outJson L))), ("ncalls", jnat r.st), ("done", jnat r.done),
+        ("calls", jarr ((callsOf tables L ((feedAll [] chunks).lines.take r.done)).map tripleJson)),
+        ("same_as_unsegmented", Json.bool ((wire L r.outs == wire L one.outs) && r.done == one.done && r.st == one.st))]
     let r := serve tables L (scripted script) [] 0 chunks
     let one := serve tables L (scripted script) [] 0 [chunks.flatten]
     return Json.mkObj [("outs", jarr (r.outs.map (outJson L))), ("rest", jhex r.buf), ("ncalls", jnat r.st),
@@ -127,10 +185,51 @@ def handle (j : Json) : R Json := do
       | [a, b] => return (← a.getBool?, ← b.getBool?)
       | _ => throw "bad flag entry")
     return Json.mkObj [("bad", verdictJson (judgeAll tables stream outs flags))]
+  | "judge_gone" =>
+    let stream ← fldHex j "stream"
+    let outs ← (← fldArr j "outs").mapM (fun c => do unhex (← c.getStr?))
+    return Json.mkObj [("bad", verdictJson (judgeGone tables stream outs))]
   | "judge_events" =>
     let outs ← (← fldArr j "outs").mapM (fun c => do unhex (← c.getStr?))
     let subs ← (← fldArr j "subscribed").mapM (fun c => do unhex (← c.getStr?))
     return Json.mkObj [("bad", jopt jnat (judgeEvents tables subs outs))]
+  | "dispatch" =>
+    -- the dispatcher model on the requests the real dispatcher was called with, one at a time
+    let descr ← (← fldArr j "describe").mapM (fun e => do return (← fldHex e "s", ← parseMod e))
+    let act ← (← fldArr j "activate").mapM (fun e => do return (← fldHex e "s", ← optHex (← fld e "cls")))
+    let logg ← (← fldArr j "logging").mapM (fun e => do
+      return ((← optHex (← fld e "s"), ← optHex (← fld e "lv")), ← parseMod e))
+    let truthy ← parseOracle j "truthy"
+    let calls ← (← fldArr j "calls").mapM (fun c => do
+      return (← parseTriple c, ← parseMod (← fld c "mod")))
+    return Json.mkObj [("results", jarr (calls.map (fun c =>
+      dispResultJson (dispatch tables dtables (nodeIf descr act logg truthy c.2) ((), ()) c.1).1.res)))]
+  | "neutral" =>
+    -- which request lines of the stream may be left out without any effect on other answers
+    let stream ← fldHex j "stream"
+    let L := lib (← parseOracle j "utf8") (← parseOracle j "json")
+    return Json.mkObj [("neutral", jarr ((splitLines stream).lines.map (fun l => Json.bool (Removable tables L l))))]
+  | "judge_indep" =>
+    -- per connection: the stream, the marks (true = the line stays), what was emitted for all lines / for the kept lines
+    let conns ← fldArr j "conns"
+    let mut bad := Json.null
+    let mut ci := 0
+    for c in conns do
+      let stream ← fldHex c "stream"
+      let keep ← (← fldArr c "keep").mapM (fun b => b.getBool?)
+      let oa ← (← fldArr c "all").mapM (fun x => do unhex (← x.getStr?))
+      let ok ← (← fldArr c "kept").mapM (fun x => do unhex (← x.getStr?))
+      let lines := (splitLines stream).lines
+      let L := lib (← parseOracle c "utf8") (← parseOracle c "json")
+      if keep.length != lines.length then throw "judge_indep: one mark per request line expected"
+      match judgeIndep tables L (lines.zip keep) oa ok with
+      | .ok => pure ()
+      | .notNeutral k =>
+        if bad.isNull then bad := Json.mkObj [("clause", Json.str "case_drops_state_request"), ("conn", jnat ci), ("k", jnat k)]
+      | .changed k =>
+        if bad.isNull then bad := Json.mkObj [("clause", Json.str "answer_changed"), ("conn", jnat ci), ("k", jnat k)]
+      ci := ci + 1
+    return Json.mkObj [("bad", bad)]
   | _ => throw s!"C07: unknown verb {k}"
 
 end Frappy.Drive.C07
